@@ -195,6 +195,34 @@ func runC14(c *Ctx) {
 			}
 		}
 
+		// ---------------- AddWarrior must not write into the caller's data, whatever it holds ----------------
+		{
+			bc := genBattle(r, 1, false)
+			w0 := bc.Warriors[0]
+			caller := &g.WarriorData{Name: "shared", Code: toGCode(w0.Code), Start: w0.Start}
+			// data assembled for a bigger core: some fields are >= this simulator's core size
+			for i := range caller.Code {
+				if r.Chance(1, 2) {
+					caller.Code[i].A += g.Address(bc.M * r.Range(1, 3))
+				}
+				if r.Chance(1, 2) {
+					caller.Code[i].B = g.Address(8000 - 1 - r.Intn(3))
+				}
+			}
+			snap := copyWD(caller)
+			if s, err := g.NewSimulator(bc.config()); err == nil {
+				try(func() {
+					s.AddWarrior(caller)
+					s.SpawnWarrior(0, g.Address(w0.Off))
+				})
+				if !sameWD(*caller, snap) {
+					c.Violate("C14:alias:addwarrior-writes-caller-data", "AddWarrior/SpawnWarrior changed the WarriorData the caller passed in (fields at or above this simulator's core size were rewritten in place)", bc.describe())
+					return
+				}
+				c.Inc("caller_data_untouched_checks")
+			}
+		}
+
 		// ---------------- cross-simulator history probe (sequential) ----------------
 		// a simulator with a LARGE process limit is run and Reset, then one with a SMALL limit runs a
 		// splitting warrior: its outcome must be the reference outcome, whatever the first one left behind
